@@ -421,6 +421,9 @@ class Interp:
             base = self.expr(n.value, env)
             if isinstance(base, dict) and n.attr in base and base.get("__obj__"):
                 return base[n.attr]
+            if isinstance(base, ast.AST) and n.attr in base._fields:
+                # data fields of a syntax-tree value handed in by the checker (ast.Call.args, keyword.arg ...)
+                return getattr(base, n.attr)
             raise Unsupported(f"attribute {n.attr}")
         if isinstance(n, ast.Call):
             return self._callexpr(n, env)
